@@ -231,6 +231,13 @@ def call_spec(V, spec, self_val, args, kwargs, st, node):
     for r in spec.requires:
         g = V.eval_spec_bool(r, st, env)
         V.oblige(st, g, 'call-pre', '%s requires %s' % (spec.name, r), node)
+    dec = getattr(spec, 'decreases', None)
+    if dec and isinstance(V.c.decreases, str) and not V.spec_mode:
+        # recursive call: the measure strictly decreases and is bounded below
+        m_call = pack(V.eval_spec(dec, st, env), INT)
+        m_entry = pack(V.eval_spec(V.c.decreases, V.entry.fork()), INT)
+        V.oblige(st, z3.And(m_call >= 0, m_call < m_entry), 'decreases',
+                 'recursive call to %s decreases %s' % (spec.name, dec), node)
     pre = st.fork()
     # effects
     for e in spec.effects:
@@ -416,17 +423,16 @@ def call_rec(V, fn, args, kwargs, st, node):
 
 
 # --------------------------------------------------------------- quantifiers
-def quantified(V, which, gen, st):
-    if len(gen.generators) != 1:
-        return None
-    g = gen.generators[0]
-    it_node = g.iter
-    # all(P(i) for i in range(a, b))
-    it = V.ev(it_node, st)
-    if V.iter_items(it, st, gen) is not None:
-        return None     # static: handled by plain comprehension
+def quantified(V, which, gen, st, gi=0, sub=None):
+    """all(...)/any(...) over a symbolic range or sequence -> ForAll / Exists"""
+    g = gen.generators[gi]
+    if sub is None:
+        sub = st.fork()
+    it = V.ev(g.iter, sub)
+    if gi == 0 and len(gen.generators) == 1 and V.iter_items(it, sub, gen) is not None:
+        return None     # static: handled by the plain comprehension
     i = z3.Int(fresh_name('q'))
-    sub = st.fork()
+    items = V.iter_items(it, sub, gen)
     if isinstance(it, MRange):
         dom = z3.And(i >= it.lo, i < it.hi)
         V.bind_target(g.target, SV(INT, i), sub, gen)
@@ -436,22 +442,47 @@ def quantified(V, which, gen, st):
     elif isinstance(it, MEnum) and isinstance(it.items, SV) and isinstance(it.items.t, SeqT):
         dom = z3.And(i >= 0, i < z3.Length(it.items.z))
         V.bind_target(g.target, MTup([SV(INT, i + it.start), SV(it.items.t.elem, it.items.z[i])]), sub, gen)
+    elif items is not None:
+        # static inner iterable: expand
+        parts = []
+        for item in items:
+            s2 = sub.fork()
+            V.bind_target(g.target, item, s2, gen)
+            parts.append(_quant_body(V, which, gen, st, gi, s2, None, None))
+        if which == 'all':
+            return SV(BOOL, z3.And(*parts) if parts else z3.BoolVal(True))
+        return SV(BOOL, z3.Or(*parts) if parts else z3.BoolVal(False))
     else:
         return None
+    return SV(BOOL, _quant_body(V, which, gen, st, gi, sub, i, dom))
+
+
+def _quant_body(V, which, gen, st, gi, sub, i, dom):
+    g = gen.generators[gi]
+    n0 = len(sub.pc)
     V.spec_mode += 1
     try:
         c = z3.BoolVal(True)
         for f in g.ifs:
             c = z3.And(c, truthy(V.ev(f, sub)))
-        body = truthy(V.ev(gen.elt, sub))
+        if gi + 1 < len(gen.generators):
+            inner = quantified(V, which, gen, st, gi + 1, sub)
+            if inner is None:
+                raise Unsupported('inner generator of a quantified expression')
+            body = inner.z
+        else:
+            body = truthy(V.ev(gen.elt, sub))
     finally:
         V.spec_mode -= 1
-    extra = sub.pc[len(st.pc):]
+    extra = sub.pc[n0:]
+    del sub.pc[n0:]
     if extra:
         body = z3.Implies(z3.And(*extra), body) if which == 'all' else z3.And(body, *extra)
+    if i is None:
+        return z3.Implies(c, body) if which == 'all' else z3.And(c, body)
     if which == 'all':
-        return SV(BOOL, z3.ForAll([i], z3.Implies(z3.And(dom, c), body)))
-    return SV(BOOL, z3.Exists([i], z3.And(dom, c, body)))
+        return z3.ForAll([i], z3.Implies(z3.And(dom, c), body))
+    return z3.Exists([i], z3.And(dom, c, body))
 
 
 # -------------------------------------------------------------- subscripts
